@@ -115,10 +115,20 @@ def syntax_faults(r, text):
     yield 'trailing garbage', text + '\n@garbage'
     yield 'leading garbage', '@garbage\n' + text
     # unknown setting / index type / operator / action / malformed colour inside the document
-    subs = [(r'\[pk', '[pkk'), (r'(?i)type:\s*(btree|hash|gin|gist|brin|spgist)', 'type: tree'), (r'(?i)(?<=[\[,] )unique(?=[,\]])', 'uniq'),
+    subs = [(r'\[pk', '[pkk'), (r'(?i)type:\s*(btree|hash|gin|gist|brin|spgist)', 'type: tree'),
             (r'(?i)delete:\s*(cascade|restrict|set null|set default|no action)', 'delete: explode'),
             (r'(?i)update:\s*(cascade|restrict|set null|set default|no action)', 'update: explode'),
-            (r'#[0-9a-fA-F]{6}\b', '#12345'), (r'#[0-9a-fA-F]{3}\b', '#ggg'), (r'(?i)(?<=[\[,] )increment(?=[,\]])', 'incremental')]
+            (r'#[0-9a-fA-F]{6}\b', '#12345'), (r'#[0-9a-fA-F]{3}\b', '#ggg')]
+    # a misspelt flag word, only inside a settings list [...] (a column may be NAMED unique / increment, and such a
+    # name may stand in an index subject list, where any word is a legal column name)
+    for word, bad in (('unique', 'uniq'), ('increment', 'incremental')):
+        for m in re.finditer(r'\[([^\[\]]*)\]', text):
+            seg = m.group(1)
+            m2 = re.search(r'(?i)(^|,)(\s*)%s(\s*)(?=,|$)' % word, seg)
+            if m2:
+                seg2 = seg[:m2.start()] + m2.group(1) + m2.group(2) + bad + m2.group(3) + seg[m2.end():]
+                yield 'invalid word %r' % bad, text[:m.start(1)] + seg2 + text[m.end(1):]
+                break
     for pat, rep in subs:
         if re.search(pat, text):
             yield 'invalid word %r' % rep, re.sub(pat, rep, text, count=1)
@@ -507,7 +517,8 @@ def run(v, tier, st, pr, pid):
         # regression corpus: witnesses of every defect ever found for this property
         for text in ['Project "a\\nb" {\n}', 'TableGroup "a\\nb" {\n}', 'Table t {\n id int\n}\nTableGroup "g\\tx" {\n t\n}',
                      "Table t {\n id int [note: '  ']\n}", 'Table t {\n id "a.b.c"\n}', "Note n {\n'''\n\n'''\n}",
-                     'Table t {\n id int\n}\nRef "{": t.id > t.id', 'Table t {\n id int\n}\nRef: t.id <> t.id // {x}', '', '// only a comment', '\ufeff', '\ufeffTable t {\n id int\n}']:
+                     'Table t {\n id int\n}\nRef "{": t.id > t.id', 'Table t {\n id int\n}\nRef: t.id <> t.id // {x}', '', '// only a comment', '\ufeff', '\ufeffTable t {\n id int\n}',
+                     'Table t {\n id int [default: ' + '9' * 4301 + ']\n}', 'Table t {\n id int [default: ' + '9' * 4300 + ']\n}']:
             cases.append(text)
             add_job(text, False, 'corpus')
         outs = pool_map(c08_job, cases)
@@ -520,7 +531,8 @@ def run(v, tier, st, pr, pid):
                 if stage == 'parse' and (exc.startswith(('pyparsing.', OWN)) or exc == 'builtins.SyntaxError'):
                     continue
                 kid = next((k for k, f in kfs.items() if f['signature'].get('class') == exc and f['signature'].get('function') == site
-                            and f['signature'].get('stage', stage) == stage), None)
+                            and f['signature'].get('stage', stage) == stage
+                            and ('text_regex' not in f['signature'] or re.search(f['signature']['text_regex'], text))), None)
                 if kid:
                     v.known_finding(kid, kfs[kid]['what'])
                 else:
